@@ -119,7 +119,7 @@ def ints(ctx, extra_random):
                     ctx.violation("varint-size-out-of-range", "size_uint_var(%d) did not raise" % v, case)
             except ValueError:
                 pass
-        if v % 97 == 0:
+        if ctx.want_sample():
             ctx.sample(case)
     ctx.extra["exhaustive"] = True
 
@@ -187,7 +187,7 @@ def acks_exhaustive(ctx, U, part, nparts):
         delay = (0, 1, 63, 64, 16383, 16384)[mask % 6]
         ctx.case(("ack", mask), nontrivial=len(ranges) > 1, classes=["ack:exhaustive"])
         ack_check(ctx, ranges, delay)
-        if mask % 1001 == 0:
+        if ctx.want_sample():
             ctx.sample({"ack_ranges": ranges, "delay": delay})
     ctx.extra["exhaustive"] = True
 
@@ -224,7 +224,7 @@ def acks_random(ctx, examples, shard):
             ranges = [(0, 1)]
         ctx.case(("ackr", tuple(ranges), delay), nontrivial=len(ranges) > 1 or ranges[0][0] > 16383, classes=["ack:random"])
         ack_check(ctx, ranges, delay)
-        if ctx.evaluations % 800 == 0:
+        if ctx.want_sample():
             ctx.sample({"ack_ranges": ranges[:6], "n": len(ranges), "delay": delay})
 
     run_hypothesis(ctx, body, strat, examples, shard=shard)
@@ -285,7 +285,7 @@ def headers(ctx, part, nparts):
                                 info = R.split_datagram(pkt + bytes(3), 8)
                                 if info[0].end != len(pkt) or info[0].dcid != dcid:
                                     ctx.violation("header-reference-walk-differs", "reference parser: %r" % (info[0],), case)
-                            if i % 4001 == 0:
+                            if ctx.want_sample():
                                 ctx.sample(case)
     # Retry
     for version in (R.V1, R.V2):
@@ -409,7 +409,7 @@ def builder_headers(ctx, examples, shard):
                     R.parse_frames(payload)
                 except R.ParseError as e:
                     ctx.violation("builder-payload-unparseable", "reference frame parser: %s" % e, case)
-        if ctx.evaluations % 500 == 0:
+        if ctx.want_sample():
             ctx.sample({k: case[k] for k in ("version", "is_client", "pn", "packets", "mds")})
 
     run_hypothesis(ctx, body, strat, examples, shard=shard)
@@ -513,7 +513,7 @@ def transport_params(ctx, examples, shard):
         rd = R.decode_transport_parameters(enc)
         if [(i, bytes(b)) for i, b in rd] != [(i, bytes(b)) for i, b in ref_list]:
             ctx.violation("tp-reference-decode-differs", "reference decodes %r" % (rd,), case)
-        if ctx.evaluations % 500 == 0:
+        if ctx.want_sample():
             ctx.sample(case)
 
     run_hypothesis(ctx, body, strat, examples, shard=shard)
@@ -724,7 +724,7 @@ def tls_messages(ctx, examples, shard):
                 ctx.violation("tls-cross-decode-raised-" + name, "pull_%s raised %r on a reference encoding %s" % (name, e, alt.hex()), case)
         # understated extension length: a decoder that honours declared lengths must refuse
         understate_extension(ctx, name, m, enc, pull, case)
-        if ctx.evaluations % 600 == 0:
+        if ctx.want_sample():
             ctx.sample({"message": name, "bytes": enc[:80]})
 
     run_hypothesis(ctx, body, strat, examples, shard=shard)
